@@ -3,7 +3,12 @@
 K1  a line is classified as a comment line by its FIRST NON-BLANK character and nothing else:
     every path to the code that records a before-key comment carries a membership test of
     *name in the comment set, name being the pointer advanced over leading blanks.
-K2  once classified, the iteration ends without any path to store()/setGroupList()/an error exit."""
+K2  once classified, the iteration ends without any path to store()/setGroupList()/an error exit.
+K3  nothing is stored and no error raised for a line unless the comment test said "no".
+K4  the comment set the parser works with is never empty: an empty set given by the caller is replaced by the default
+    at the one place every file passes (the gate), not in some of the entry points.
+K5  comment text never flows into a key, a value or a section name (nor the other way round): every string written into
+    field F of an entry by the parser unit stems from field F of an entry / the parameter or pending buffer of that kind."""
 from sa.ast import render
 from sa.facts import Inconclusive
 from sa import query
@@ -211,3 +216,134 @@ def run(prog, ctx):
                  "non-blank character is a comment character is treated as data (e.g. appended to the previous value)" % what,
                  key="comment-test-bypassed", path=cfg.describe_path(wp)[-8:])
     ctx.floor("C05 statements recording a before-key comment", len(recs), 1)
+    k4(prog, ctx)
+    k5(prog, ctx, L)
+
+
+TEXT_FIELDS = ("group", "key", "value", "comment_before_key", "comment_after_value")
+
+
+def k5(prog, ctx, L):
+    """field purity of the text sinks of the parser unit (join_same_entries, store, and the store() calls of read_file)"""
+    n = 0
+    for fname in ("join_same_entries", "store"):
+        if not prog.has_fn(fname):
+            ctx.inconclusive("K5", "%s keeps comment text and value text apart" % fname, "", "anchor vanished")
+            continue
+        f = prog.fn(fname)
+        ctx.touch(f)
+        rd = ReachingDefs(f)
+        sinks = []      # (field, node at which the text is consumed, [string argument nodes])
+        for c in f.calls(("asprintf",)):
+            a = c.call_args()
+            if not a:
+                continue
+            dst = a[0].strip()
+            if dst.k == "UnaryOperator" and dst.j.get("op") == "&":
+                d2 = dst.children[0].strip()
+                if d2.k == "MemberExpr" and d2.j.get("member") in TEXT_FIELDS:
+                    sinks.append((d2.j["member"], c, [x for x in a[2:] if (x.j.get("ct") or "").endswith("char *")]))
+        for lhs, rhs, st, kind in query.stores(f):
+            l = lhs.strip()
+            if kind == "=" and l.k == "MemberExpr" and l.j.get("member") in TEXT_FIELDS and rhs is not None:
+                r = rhs.strip()
+                if r.k == "CallExpr" and r.j.get("callee") in ("strdup", "strndup") and r.call_args():
+                    sinks.append((l.j["member"], st, [r.call_args()[0]]))
+        for field, at, args in sinks:
+            n += 1
+            bad = None
+            for x in args:
+                for o in origins(rd, x, at):
+                    src = None
+                    if isinstance(o, tuple) and o[0] == "expr" and o[1].strip().k == "MemberExpr" and o[1].strip().j.get("member") in TEXT_FIELDS:
+                        src = o[1].strip().j["member"]
+                    elif isinstance(o, tuple) and o[0] == "param" and o[1] in TEXT_FIELDS:
+                        src = o[1]
+                    if src is not None and src != field and not (field == "group" or src == "group"):
+                        bad = (x, src)
+            inst = "%s: text written into .%s" % (fname, field)
+            if bad:
+                ctx.fail("K5", inst, at.where,
+                         "`%s` can hold the entry's %s here (a definition made for another field reaches this use): %s text ends up in the %s" % (
+                             render(bad[0]), bad[1], bad[1].replace("_", " "), field.replace("_", " ")), key="field-mix:%s:%s" % (fname, field))
+            else:
+                ctx.ok("K5", inst, at.where, "all string operands stem from .%s / the `%s` parameter, or are literals" % (field, field))
+    # the parser's store() calls: comment slots get the pending comment buffers, key/value slots never do
+    st_fn = prog.fn("store") if prog.has_fn("store") else None
+    if st_fn is not None:
+        pn = st_fn.param_names()
+        pend = {"comment_before_key": L.pending_before, "comment_after_value": getattr(L, "pending_after", None)}
+        for c in L.fn.calls("store"):
+            a = c.call_args()
+            n += 1
+            probs = []
+            for slot in ("key", "value", "group"):
+                if slot in pn:
+                    t = render(a[pn.index(slot)])
+                    for pv in pend.values():
+                        if pv and pv in t:
+                            probs.append("the %s slot receives the pending comment buffer `%s`" % (slot, pv))
+            for slot, pv in pend.items():
+                if slot in pn and pv:
+                    t = render(a[pn.index(slot)])
+                    if t != pv and t != "NULL":
+                        probs.append("the %s slot receives `%s`, not the pending buffer `%s`" % (slot, t, pv))
+            if probs:
+                ctx.fail("K5", "read_file: arguments of store()", c.where, "; ".join(probs), key="store-slots")
+            else:
+                ctx.ok("K5", "read_file: arguments of store()", c.where, "comment slots = pending comment buffers; key/value slots do not mention them")
+    ctx.floor("C05.K5 text sinks", n, 6)
+
+
+def k4(prog, ctx):
+    from rules import common
+    g = prog.fn(common.GATE)
+    ctx.touch(g)
+    cfg = g.cfg
+    calls = g.calls(common.PARSER)
+    if len(calls) != 1:
+        ctx.inconclusive("K4", "the parser never sees an empty comment set", g.where, "%d parser calls in the gate" % len(calls))
+        return
+    c = calls[0]
+    pn = prog.fn(common.PARSER).param_names()
+    if "comment" not in pn:
+        ctx.inconclusive("K4", "the parser never sees an empty comment set", c.where, "parser has no `comment` parameter")
+        return
+    arg = c.call_args()[pn.index("comment")].strip()
+    inst = "the parser never sees an empty comment set"
+    if arg.string_value() is not None:
+        if arg.string_value():
+            ctx.ok("K4", inst, c.where, "constant set %r" % arg.string_value())
+        else:
+            ctx.fail("K4", inst, c.where, "the parser is called with the empty set", key="empty-comment-set")
+        return
+    if arg.k != "DeclRefExpr":
+        ctx.inconclusive("K4", inst, c.where, "comment argument `%s` not a variable" % render(arg))
+        return
+    v = arg.j["name"]
+    succ = {(b, i): s2 for (b, i, s2) in cfg.edges()}
+    # blocks that give v a non-empty literal
+    good_blocks = set()
+    other_defs = []
+    for lhs, rhs, st, kind in query.stores(g):
+        if render(lhs) == v and rhs is not None:
+            if rhs.string_value():
+                good_blocks.add(cfg.block_of(st))
+            else:
+                other_defs.append(st)
+
+    def nonempty(lit, b, i):
+        if succ.get((b, i)) in good_blocks:
+            return True
+        return lit is not None and lit.kind == "truth" and lit.pol and lit.atom in ("*" + v, v + "[0]", "strlen(%s)" % v)
+    ok, cut = cfg.all_paths_cut(cfg.block_of(c), nonempty)
+    if other_defs:
+        ctx.inconclusive("K4", inst, other_defs[0].where, "`%s` is redefined by `%s`" % (v, render(other_defs[0])))
+    elif ok and cut:
+        ctx.ok("K4", inst, c.where, "every path to %s() carries `*%s` or replaces %s by a non-empty literal" % (common.PARSER, v, v))
+    else:
+        wp = cfg.witness_path(cfg.block_of(c), avoid_edges=cut)
+        ctx.fail("K4", inst, c.where,
+                 "%s() is reachable with an empty comment set: every entry point that does not replace \"\" itself (the econf_readDirs* family, "
+                 "the history variants) parses with NO comment character - `# text` lines become keys or errors" % common.PARSER,
+                 key="empty-comment-set", path=cfg.describe_path(wp)[-6:])
